@@ -402,9 +402,17 @@ func mixCase(t *rapid.T, s string) string {
 
 func genFragment(t *rapid.T, name string) string {
 	rs := []rune(name)
-	switch rapid.IntRange(0, 5).Draw(t, "fragkind") {
+	switch rapid.IntRange(0, 6).Draw(t, "fragkind") {
 	case 0:
 		return ""
+	case 6:
+		// the beginning of one segment and the colon typed after it (any segment, the last included)
+		segs := strings.Split(name, ":")
+		seg := []rune(rapid.SampledFrom(segs).Draw(t, "fragseg"))
+		if len(seg) == 0 {
+			return ""
+		}
+		return mixCase(t, strings.TrimRight(string(seg[:rapid.IntRange(1, len(seg)).Draw(t, "fragseglen")]), " ")+":")
 	case 1:
 		// a non-prefix subsequence
 		var sb strings.Builder
